@@ -96,14 +96,18 @@ impl ValidatorSync for KeepUniqueValidator {
                     if let Some((matched_line, line_range)) = line_match
                         && !seen.insert(matched_line)
                     {
-                        let violation_line_number = block_with_context
-                            .block
-                            .start_tag_position_range
-                            .start()
-                            .line
-                            + line_number;
-                        let line_character_start = *line_range.start(); // Start position is 1-based.
-                        let line_character_end = *line_range.end(); // End position is 1-based and inclusive.
+                        // The content starts where the comment with the start tag ends, which
+                        // is not necessarily the start tag's line.
+                        let content_start = &block_with_context.block.content_position_range.start;
+                        let violation_line_number = content_start.line + line_number;
+                        // The first line of the content starts in the middle of a source line.
+                        let column_offset = if line_number == 0 {
+                            content_start.character - 1
+                        } else {
+                            0
+                        };
+                        let line_character_start = *line_range.start() + column_offset; // Start position is 1-based.
+                        let line_character_end = *line_range.end() + column_offset; // End position is 1-based and inclusive.
                         violations
                             .entry(file_path.clone())
                             .or_insert_with(Vec::new)
